@@ -92,6 +92,10 @@ pub struct Spec {
     /// installed; `true` raises the `log` max level to Trace for the run, `false` leaves it Off
     #[serde(default)]
     pub logger: bool,
+    /// call sites of this run: false = as written on the concrete type (inherent items win), true = as
+    /// generic code resolves them (always the trait implementation); see `gens::set_call_generic`
+    #[serde(default)]
+    pub generic: bool,
 }
 
 #[derive(Clone, Debug, PartialEq)]
